@@ -120,6 +120,12 @@ def check_one(beh):
     bad, msg = fm94.replay_decode(beh)
     if bad:
         return bad
+    if beh.get('scoped'):
+        # the links of a Scope.Scoped program with template compilation on (one compiling decoder per worker): values, labels
+        # and bitmap links as the specification says - a compiled template replays 235000 / 237255 / 236000 like the walk does
+        bad, _ = fm94.replay_decode(beh, decoder=fm94._compiling('dec'))
+        if bad:
+            return (('compiled',) + tuple(bad[0]), 'with template compilation: ' + bad[1])
     for i, ents in enumerate(fm94.subsets_of(beh)):
         try:
             owned, meaning, seen = impl_tree_relations(msg, i)
